@@ -25,7 +25,7 @@ CYC_CLASSES = CYC_FLOW_K + ("MinFlowDecompCycles",) + CYC_COVER
 FLOW_CLASSES = DAG_FLOW_K + CYC_FLOW_K + ("MinFlowDecomp", "MinFlowDecompCycles")
 COVER_CLASSES = DAG_COVER + CYC_COVER
 K_CLASSES = DAG_FLOW_K + CYC_FLOW_K + ("kPathCover", "kPathCoverCycles")
-K_NONE_DOCUMENTED = ("kMinPathError", "kMinPathErrorCycles", "kLeastAbsErrorsCycles", "kPathCoverCycles")   # docstring note / default k=None
+K_NONE_DOCUMENTED = ("kMinPathError", "kMinPathErrorCycles", "kLeastAbsErrorsCycles")   # docstrings say that k=None means "use the width"; kPathCoverCycles only has None as an (undocumented) signature default: undecided
 FD_CONSERVATION_DOCUMENTED = ("kFlowDecomp", "MinFlowDecomp", "MinFlowDecompCycles")                      # "Raises" sections
 HAS_ERROR_SCALING = ("kMinPathError", "kLeastAbsErrors", "kMinPathErrorCycles", "kLeastAbsErrorsCycles", "MinErrorFlow")
 NO_ADDITIONAL = ("kFlowDecomp",)
